@@ -378,13 +378,13 @@ def struct_eq(ex, st, a, b, ty, depth=0):
     raise Inconclusive('structural equality on type %s' % ty)
 
 
-@pattern(r'^<(std::option::)?Option<.*> as PartialEq>::(eq|ne)$')
+@pattern(r'^<&?(std::option::)?Option<.*> as PartialEq>::(eq|ne)$')
 def m_option_eq(ex, st, args, dty, canon):
     raw = canon[4]
     k = ex._match_angle(raw, 0)
-    ty = ex._split_as(raw[1:k])[0]
-    a = deref(ex, st, args[0])
-    b = deref(ex, st, args[1])
+    ty = ex._split_as(raw[1:k])[0].lstrip('&').strip()
+    a = deref_all(ex, st, args[0])
+    b = deref_all(ex, st, args[1])
     e = struct_eq(ex, st, a, b, ty)
     return Sc(e if canon[3] == 'eq' else z3.Not(e), 'bool')
 
@@ -1479,3 +1479,40 @@ def m_generic_ne(ex, st, args, dty, canon):
         return finish(ex2, s2, Sc(z3.Not(ex2.as_bool(r)), 'bool'))
     ex.new_frame(st, d, list(args), on_return=cont)
     return NOTHING
+
+
+# ------------------------------------------------------------------ str::split over bounded byte strings
+
+def bstr_of(ex, st, v):
+    v = deref_all(ex, st, v)
+    if isinstance(v, Obj) and v.kind == 'bstr':
+        return v.data
+    raise Inconclusive('not a bounded byte string: %r' % (v,))
+
+
+@pattern(r'<impl str>::split::<char>$')
+def m_str_split_char(ex, st, args, dty, canon):
+    """fork on the length and on which positions hold the separator; pieces then have concrete extents"""
+    import itertools
+    ln, bs = bstr_of(ex, st, args[0])
+    sep = z3.simplify(args[1].t)
+    n = len(bs)
+    alts = []
+    for L in range(n + 1):
+        for mask in itertools.product((False, True), repeat=L):
+            cond = z3.And(ln == L, *[(bs[i] == sep) == z3.BoolVal(mask[i]) for i in range(L)])
+
+            def mk(L=L, mask=mask):
+                def f(s):
+                    pieces = []
+                    start = 0
+                    for i in range(L + 1):
+                        if i == L or mask[i]:
+                            seg = tuple(bs[start:i]) + tuple(z3.IntVal(0) for _ in range(n - (i - start)))
+                            pieces.append(Obj('bstr', (z3.IntVal(i - start), seg)))
+                            start = i + 1
+                    s.extra['split'] = (L, mask)
+                    return it('val', tuple(pieces), 0)
+                return f
+            alts.append((cond, mk()))
+    raise Fork(alts)
